@@ -173,8 +173,15 @@ def _worker(index):
                 v.family = sfx      # applied by the aggregator, unless the plain key is a known finding already
     except build.BuildError:
         raise
-    except Exception:
+    except Exception as ex:
         r = CaseResult()
+        if type(ex).__name__ == "Unconfirmed":
+            # a wall-clock timeout without a witness: inconclusive, neither held nor violated
+            r.inconclusive("timeout-without-witness: %s" % ex)
+            r.wall = time.time() - t0
+            r.index = index
+            r.sets = {}
+            return r
         r.status = "error"
         r.reason = traceback.format_exc()[-3000:]
     r.wall = time.time() - t0
